@@ -53,17 +53,18 @@ Theorem C02_flac_save_obj : forall p bs a, prefix_ok p -> bs <> [] -> Forall blo
 Proof. exact save_obj_layout. Qed.
 Print Assumptions C02_flac_save_obj.
 
-(* the explicit exception deleteid3=True: the ID3v2 prefix is removed and an ID3v1 trailer (last 128 bytes starting
-   with "TAG") is cut off; blocks and audio are otherwise the same.  The last clause needs at least 128 bytes of
-   audio: on a shorter file mutagen's ID3v1 test looks at (and may cut) bytes of the metadata region. *)
-Theorem C02_flac_deleteid3_partial : forall f t o f', flac_wf f = true -> o_deleteid3 o = true -> flac_save f t o = Ok f' ->
-  exists s g s', flac_parse f = Ok s /\ f' = strip_id3v1 g /\ flac_parse g = Ok s' /\
-    fprefix s' = [] /\ foreign_blocks (fblocks s') = foreign_blocks (fblocks s) /\ faudio s' = faudio s /\
-    hd_error (fblocks s') = hd_error (fblocks s) /\
-    find is_vcb (fblocks s') = Some (mkB 4 (vc_render t) (-1)) /\
-    (128 <= zlen (faudio s) -> flac_parse f' = Ok (mkFlac [] (fblocks s') (strip_id3v1 (faudio s)))).
+(* the explicit exception deleteid3=True: the ID3v2 prefix is removed and an ID3v1 trailer (last 128 bytes, starting with
+   "TAG") is cut off the AUDIO; every foreign block and the rest of the audio are the same, in order *)
+Theorem C02_flac_deleteid3 : forall f t o f', flac_wf f = true -> o_deleteid3 o = true -> flac_save f t o = Ok f' ->
+  exists s s', flac_parse f = Ok s /\ flac_parse f' = Ok s' /\
+    fprefix s' = [] /\ foreign_blocks (fblocks s') = foreign_blocks (fblocks s) /\ faudio s' = strip_audio (faudio s) /\
+    hd_error (fblocks s') = hd_error (fblocks s).
 Proof. exact final_deleteid3. Qed.
-Print Assumptions C02_flac_deleteid3_partial.
+Print Assumptions C02_flac_deleteid3.
+Theorem C02_flac_strip_audio : forall a, strip_audio a = a \/
+  (128 <= zlen a /\ starts_with TAGMAGIC (zdrop (zlen a - 128) a) = true /\ strip_audio a = ztake (zlen a - 128) a).
+Proof. exact strip_audio_cases. Qed.
+Print Assumptions C02_flac_strip_audio.
 
 (* the file effect of FLAC._save is the pure splice: resize_bytes(fileobj, available, len(data), header); seek; write
    run over the resize_bytes REGENERATED from mutagen/_util.py (C11), every buffer size, both seek flavours *)
